@@ -8,6 +8,7 @@ From LR Require Import lib.Base model.TmTree model.TmTreeML model.CIndex model.S
 From LR Require Import gen.Consts.
 From LR Require Import proofs.TmTreeP proofs.TmTreeMLP proofs.CIndexP proofs.SelectorP proofs.SelectorInvP proofs.SelectorRunP.
 From LR Require Import proofs.SelectorSelP.
+From LR Require Import proofs.SelectorPosP.
 Open Scope Z_scope.
 
 (* The property as a statement about a variant v of the model: after ANY history of write batches
@@ -177,6 +178,45 @@ Example C02_continued_selector_complete_nonvacuous :
   Forall op_ok (sess_hist0 ++ concat sess_hs) /\ hist_sorted (sess_hist0 ++ concat sess_hs) /\ hist_disciplined (sess_hist0 ++ concat sess_hs) /\
   hist_small (sess_hist0 ++ concat sess_hs) /\ ends_synced sess_hist0 /\ Forall no_drop (concat sess_hs).
 Proof. exact sess_nonvac. Qed.
+
+(* ---- a query continued from a SAVED POSITION (chunk id, record index) after TRUNCATE has removed chunks
+   (model/Selector.v range_read_from = chkSelector.getPosForward under cursor.applyStatePos; truncate k = the k oldest
+   chunks are gone, the index learns about it at its next SyncChunks). For every variant, every state (index arbitrarily
+   stale) and every range: when the chunk of the position does not exist any more, the record index of the position is
+   ignored - the position denotes the FIRST record of the first existing chunk after it; when every existing chunk lies
+   after the position the continuation IS the range read of what exists. ---- *)
+Theorem C02_position_of_removed_chunk : forall v st pc pi o1 o2,
+  (forall c, In c (ids_of (p_chunks st)) -> c <> pc) ->
+  range_read_from false v st pc pi o1 o2 = range_read_from false v st pc 0 o1 o2.
+Proof. exact position_of_removed_chunk. Qed.
+Print Assumptions C02_position_of_removed_chunk.
+
+Theorem C02_position_before_all_chunks : forall v st pc pi o1 o2,
+  (forall c, In c (ids_of (p_chunks st)) -> pc < c) ->
+  range_read_from false v st pc pi o1 o2 = range_read v st o1 o2.
+Proof. exact position_before_all_chunks. Qed.
+Print Assumptions C02_position_before_all_chunks.
+
+(* with the completeness of the range read of the truncated state: exactly the in-range events that still exist *)
+Theorem C02_continued_after_truncation : forall hist k pc pi o1 o2,
+  let st := truncate k (run impl_variant hist) in
+  (forall c, In c (ids_of (p_chunks st)) -> pc < c) -> complete_at impl_variant st o1 o2 ->
+  fst (range_read_from false impl_variant st pc pi o1 o2) = filter (in_range_opt o1 o2) (read_all st).
+Proof. exact continued_after_truncation. Qed.
+Print Assumptions C02_continued_after_truncation.
+
+(* a selector that carries the record index of the vanished chunk over into the next chunk (seeded/C02-9) loses the
+   first records of that chunk: two chunks of 300 events, a query read 120 records into chunk 1, chunk 1 truncated:
+   the continuation has the 300 events of chunk 2 - the carried index delivers 180 *)
+Theorem C02_carried_index_refuted :
+  exists st pc pi o1 o2, (forall c, In c (ids_of (p_chunks st)) -> pc < c) /\
+    length (fst (range_read_from false impl_variant st pc pi o1 o2)) = length (fst (range_read impl_variant st o1 o2)) /\
+    (length (fst (range_read_from true impl_variant st pc pi o1 o2)) < length (fst (range_read impl_variant st o1 o2)))%nat.
+Proof.
+  exists pos_wit_st, 1, 120, (Some 0), (Some 1000). destruct carried_index_refuted as (H1 & H2 & H3 & H4).
+  split; [exact H1|]. rewrite H2, H3, H4. split; [reflexivity|lia].
+Qed.
+Print Assumptions C02_carried_index_refuted.
 
 (* ---- the multi-level block tree (model/TmTreeML.v, compared with real ckindex trees of up to 3 levels on every
    run) has the three properties of the flat record list that the proofs above use: on a well-formed tree of ANY
